@@ -68,6 +68,21 @@ func c13aRun(p c13aParam) string {
 	return sb.String()
 }
 
+// c13aRef: the 1-worker control run, made outside the scheduler by the harness goroutine; a panic or a
+// log.Fatal of the implementation comes back as a description.
+func c13aRef(q c13aParam) (ref, crash string) {
+	defer func() {
+		if x := recover(); x != nil {
+			if e, ok := x.(*log.Entry); ok {
+				crash = "log.Panic: " + e.Message
+			} else {
+				crash = fmt.Sprintf("panic / fatal: %v", x)
+			}
+		}
+	}()
+	return c13aRun(q), ""
+}
+
 func c13aParams(thorough bool) []c13aParam {
 	base := "acgtac"
 	var out []c13aParam
@@ -120,7 +135,11 @@ func TestVerifC13A(t *testing.T) {
 		}
 		q := p
 		q.Workers = 1
-		ref := c13aRun(q)
+		ref, crash := c13aRef(q)
+		if crash != "" {
+			r.Violate("obiclean/control-run/one-worker-graph/crash", fmt.Sprintf("%s seqs=%v counts=%v distance=%d ratio=%v: the 1-worker run ends in %s", p.Name, p.Seqs, p.Counts, p.Dist, p.Ratio, crash), p)
+			return
+		}
 		// the conflict sites must be known for the schedule to be replayable: discover them first
 		cfg := vsched.Config{Name: p.Name, Full: true, MaxExec: 400000}
 		found := ""
@@ -152,7 +171,13 @@ func TestVerifC13A(t *testing.T) {
 		}
 		q := p
 		q.Workers = 1
-		ref := c13aRun(q) // one worker, outside the scheduler: the reference graph
+		ref, crash := c13aRef(q) // one worker, outside the scheduler: the reference graph
+		r.Count("configurations_submitted", 1)
+		if crash != "" {
+			// the control run fails: a verdict on the tree; the exploration that compares with it is skipped
+			r.Violate("obiclean/control-run/one-worker-graph/crash", fmt.Sprintf("%s seqs=%v counts=%v distance=%d ratio=%v: the 1-worker run ends in %s", p.Name, p.Seqs, p.Counts, p.Dist, p.Ratio, crash), p)
+			continue
+		}
 		if k < 2 {
 			r.Sample(map[string]any{"param": p, "reference_graph": ref})
 		}
@@ -226,6 +251,8 @@ func TestVerifC13A(t *testing.T) {
 			}
 		}
 	}
-	r.RequireNonVacuous("outcome_completed")
-	r.RequireNonVacuous("conflict_sites")
+	// guards on what the harness does; whether executions complete and whether the code under test has
+	// unsynchronised shared accesses (outcome_completed, conflict_sites) are answers of the tree: counters only
+	r.RequireNonVacuous("configurations_submitted")
+	r.RequireNonVacuous("executions_delay-policy0")
 }
